@@ -49,6 +49,8 @@ Cons(t) ==
                     C2("hassubset", l, Lst(<<ILit, IntL(7302)>>)), C2("hassubsequence", l, Lst(<<ILit, IntL(7302)>>)), G("intersects", <<g, GEOLit>>),
                     Cmp("eq", n, ILit), Cmp("ne", s, NullL), Cmp("in", n, Lst(<<ILit, IntL(7302)>>)), Cmp("in", s, Lst(<<SLit>>)), Un("not", b),
                     \* a literal on the LEFT of `in`, fields among the members
+                    \* an empty search string (the field and the call are still there)
+                    C2("contains", s, StrL(<<>>)), C2("startswith", s, StrL(<<>>)), C2("endswith", P("a", <<"name">>), StrL(<<>>)),
                     Cmp("in", ILit, Lst(<<n, IntL(7302)>>)), Cmp("in", SLit, Lst(<<s, StrL(StrCps("q8y"))>>)),
                     Call(Id0("contains"), <<Named(Id0("haystack"), s), Named(Id0("needle"), SLit)>>),
                     Call(Id0("contains"), <<Named(Id0("field"), s), Named(Id0("substr"), SLit)>>),
@@ -56,7 +58,7 @@ Cons(t) ==
                     Coll(Id0("cs"), "all", Lam(x, Cmp("gt", P("x", <<"n">>), ILit))), Coll(P("a", <<"cs">>), "any", None),
                     Bool("and", Cmp("lt", n, ILit), Cmp("ge", f, FLit)), Bool("or", b, Cmp("eq", s, SLit)),
                     Call(Id(<<"f">>, "g"), <<Named(Id0("k"), ILit)>>), Call(Id(<<"f">>, "g"), <<ILit, SLit>>) }
-    [] t = "T" -> { TLit, Lit("DateTime", "2031-07-03T07:31"), d, Call(Id0("now"), <<>>), Call(Id0("mindatetime"), <<>>), Call(Id0("maxdatetime"), <<>>),
+    [] t = "T" -> { TLit, Lit("DateTime", "2031-07-03T07:31"), Lit("DateTime", "2031-07-03T07:31:03.250+02:00"), Lit("DateTime", "2031-07-03T07:31:03-05:30"), d, Call(Id0("now"), <<>>), Call(Id0("mindatetime"), <<>>), Call(Id0("maxdatetime"), <<>>),
                     Bin("add", d, DULit), Bin("sub", d, DULit) }
     [] t = "D" -> { DLit, C1("date", d), dd }
     [] t = "TM" -> { TMLit, C1("time", d), tt }
